@@ -225,6 +225,9 @@ fn step_body(kind: u8, phase: u8, live: bool, pend_write: bool, pend_flush: bool
             assert!(g::IO_ERRS == 1);
         }
         if let Some(Ok(advanced)) = result {
+            if g::IO_FLUSH_OK == 0 {
+                assert!(g::KIND == kind && g::WRITTEN == w0 + g::IO_ACC_N, "C15/C13/step: after a partial write the recorded offset is not the total number of bytes accepted so far");
+            }
             assert!(advanced, "C16/step: a step on unsent data reports no progress");
             assert!(g::IO_ACC_N >= 1 || g::IO_FLUSH_OK == 1, "C16/step: progress reported without an accepted byte or a completed flush");
             assert!(g::measure() < m0, "C16/step: the remaining-work measure did not decrease");
@@ -413,20 +416,20 @@ absout_harness!(c14_replay_respects_limit, 8, {
     }
     let mut conn = Connection { session: &mut session, io: SymIo, event: ConnectEvent::Reconnected, live: true };
     let step = conn.session.data.outbound.next_step().unwrap();
+    unsafe {
+        PEND_WRITE = false;
+        PEND_FLUSH = false;
+    }
     let r = {
         let fut = conn.perform_outbound_step(step, Instant::from_ticks(1));
         let mut fut = core::pin::pin!(fut);
-        let mut out = None;
-        let mut polls = 0;
-        while polls < 3 {
-            if let Poll::Ready(r) = poll_once(fut.as_mut()) {
-                out = Some(r);
-                break;
-            }
-            polls += 1;
+        // nothing is pending in this harness: one poll completes the step
+        match poll_once(fut.as_mut()) {
+            Poll::Ready(r) => Some(r),
+            Poll::Pending => None,
         }
-        out
     };
+    assert!(r.is_some(), "harness: unexpected Pending");
     unsafe {
         if max < 4 {
             assert!(g::IO_WRITES == 0, "C14: a retained packet longer than the broker's Maximum Packet Size was transmitted on replay");
